@@ -479,6 +479,14 @@ class TD3(RLAlgorithm):
             self.soft_update(self.critic_1, self.critic_target_1)
             self.soft_update(self.critic_2, self.critic_target_2)
 
+            # The critics hold a detached copy of the actor's encoder: bring it up to
+            # date with the weights that were just trained
+            if self.share_encoders and all(
+                isinstance(net, EvolvableNetwork)
+                for net in [self.actor, self.critic_1, self.critic_2]
+            ):
+                self.share_encoder_parameters()
+
             return actor_loss.item(), critic_loss.item()
         else:
             return None, critic_loss.item()
